@@ -363,7 +363,15 @@ class History:
                 return "tmp", tmp_ids[path]
             return "other", 0
 
-        for o in r.ops:
+        logs_by_seq = {}
+        for lg in r.logs:
+            logs_by_seq.setdefault(lg.get("seq"), []).append(lg)
+        for o in r.events:
+            if o["op"] == "out":
+                # Breadlog's own log lines, in sequence with the operations
+                for lg in logs_by_seq.get(o["seq"], []):
+                    self.events.append({"ev": "log", "code": lg["code"], "level": lg["level"]})
+                continue
             op, path, ok = o["op"], o["path"], (o["ret"] >= 0 and o["err"] == 0)
             if op in ("kill_before", "kill_after"):
                 continue
@@ -421,7 +429,7 @@ class History:
                 name = "other"
             ev = {"ev": "op", "op": name, "cls": c, "dcls": dcls, "id": ident, "dst": dst, "ok": bool(ok), "mut": bool(mut),
                   "cum": o["cum"], "final": final_of_tmp.get(path, -1) if (c == "tmp" and name == "create") else -1,
-                  "scan": scanning, "injected": o["fault"] in ("errno", "short"), "k": o["k"], "err": o["err"]}
+                  "scan": scanning, "injected": o["fault"] in ("errno", "short"), "k": o["k"], "err": o["err"], "raw": op}
             self.events.append(ev)
 
     def close(self):
